@@ -218,3 +218,19 @@ def pecho(uid, *a, **k):
 
 def stateful(worker_getter=None):
     pass
+
+
+def restart_target(uid, d2='X', *, dk=0, kind='ok'):
+    """C17 probe target: echoes the unique id, the second default positional and the default keyword."""
+    if kind == 'raise':
+        raise CustomError('boom', uid)
+    if kind == 'slow':
+        time.sleep(0.4)
+    if kind == 'swallow':
+        while True:
+            try:
+                while True:
+                    time.sleep(0.005)
+            except Exception:
+                pass
+    return [uid, d2, dk, kind]
